@@ -86,7 +86,14 @@ PROBES = [0, 1, 0.5, 2]
 def creward(r, actions):
     if callable(r):
         if isinstance(actions, (list, tuple)) and len(actions) > 0:
-            return {"r": [cv(r(a)) for a in actions]}
+            vals = [r(a) for a in actions]
+            out = {"r": [cv(v) for v in vals]}
+            try:        # the action the reward function favours (the true label of a supervised interaction) and what it pays
+                b = max(range(len(vals)), key=lambda i: vals[i])
+                out["best"] = [cv(actions[b]), cv(vals[b])]
+            except Exception:
+                pass
+            return out
         return {"rp": [cv(r(a)) for a in PROBES]}
     return {"r": cv(r)}
 
@@ -582,7 +589,7 @@ def g_lambda(rng, n):
     ak = rng.choice(["str", "str", "onehot", "num", "dense", "sparse"])
     nact = rng.randint(2, 4)
     if ak == "str":
-        base = ["x", "y", "z", "w"][:nact]
+        base = rng.sample(TRICKY, nact) if rng.chance(0.3) else ["x", "y", "z", "w"][:nact]
     elif ak == "onehot":
         base = [{"t": [1 if i == j else 0 for j in range(nact)]} for i in range(nact)]
     elif ak == "num":
@@ -590,7 +597,8 @@ def g_lambda(rng, n):
     elif ak == "dense":
         base = [[i, g_num(rng)] for i in range(nact)]
     else:
-        base = [{"d": [["k%d" % i, 1], ["b", g_num(rng)]]} for i in range(nact)]
+        kf = "k %d" if rng.chance(0.3) else "k%d"
+        base = [{"d": [[kf % i, 1], ["b", g_num(rng)]]} for i in range(nact)]
     acts = [base] if rng.chance(0.7) else [base, base[:-1] if nact > 2 else base]
     rwds = [[rng.randint(0, 4) / 4 for _ in range(nact)] for _ in range(rng.randint(1, 3))]
     if rng.chance(0.25):
@@ -621,12 +629,18 @@ def g_synth(rng, n):
     return {"kind": k, "n": n, "n_actions": na, "n_ctx": nc, "n_act": nf, "seed": seed}, shape
 
 
-def g_labels(rng, n, lt):
+# strings a repr / literal_eval / text round trip can mangle: inner, leading and trailing blanks, quotes, backslash, non-ascii, empty, separators
+TRICKY = ["red wine", "white wine", " lead", "trail ", "it's", 'say "hi"', "back\\slash", "na\u00efve \u00fc", "", "a, b", "two  blanks", "tab\there"]
+
+
+def g_labels(rng, n, lt, tricky_ok=False):
     if lt == "r":
         return [g_num(rng) for _ in range(n)]
+    tricky = tricky_ok and rng.chance(0.4)
     if lt == "m":
-        return [rng.subset(["p", "q", "r"], 0.5) or ["p"] for _ in range(n)]
-    labs = rng.choice([["a", "b"], ["a", "b", "c"], [1, 2, 3], ["yes", "no"]])
+        pool = rng.sample(TRICKY, 3) if tricky else ["p", "q", "r"]
+        return [rng.subset(pool, 0.5) or [pool[0]] for _ in range(n)]
+    labs = rng.sample(TRICKY, rng.randint(2, 3)) if tricky else rng.choice([["a", "b"], ["a", "b", "c"], [1, 2, 3], ["yes", "no"]])
     return [rng.choice(labs) for _ in range(n)]
 
 
@@ -637,7 +651,7 @@ def g_sup(rng, n):
     if r < 30:
         ck = rng.choice(["dense", "dense", "sparse", "value", "densecat", "densenone"])
         X = [g_ctx(rng, ck, width) for _ in range(n)]
-        Y = g_labels(rng, n, lt or rng.choice(["c", "r"]))
+        Y = g_labels(rng, n, lt or rng.choice(["c", "r"]), tricky_ok=True)
         shape = {"ctx": ck, "act": "empty" if (lt == "r" or (lt is None and Y and not isinstance(Y[0], str))) else "str", "width": width, "nact": 3,
                  "skeys": ["a", "b", "c", "d", "e", "f"][:max(2, width + 1)]}
         return {"kind": "sup_xy", "X": X, "Y": Y, "label_type": lt}, shape
@@ -645,10 +659,10 @@ def g_sup(rng, n):
         via = rng.choice(["list", "iterable"])
         take = rng.choice([None, None, None, max(1, n // 2), n + 3])
         mode = rng.choice(["pairs", "dense_col", "sparse_col"])
-        labs = g_labels(rng, n, lt or "c")
+        labs = g_labels(rng, n, lt or "c", tricky_ok=True)
         if lt == "m" and mode != "pairs":
             lt = "c"
-            labs = g_labels(rng, n, "c")
+            labs = g_labels(rng, n, "c", tricky_ok=True)
         if mode == "pairs":
             ck = rng.choice(["dense", "sparse", "value"])
             if rng.chance(0.45):
@@ -2103,6 +2117,16 @@ class C04(Property):
                    "hist": [full, full], "xproc": True})
         cs.append({"src": {"kind": "sup_file", "fmt": "libsvm", "via": "lines", "lines": ["0,2 1:3 4:1", "1 2:1 4:9", "0,1,2 1:2 5:7", "2 3:1"], "label_col": None, "label_type": "m", "take": None},
                    "chain": [], "hist": [full, full], "xproc": True})
+        # labels / actions / keys that a repr-literal_eval or text round trip can mangle, held in memory and pickled / saved
+        Yt = ["red wine", "white wine", " lead", "red wine", "it's", 'say "hi"', "", "back\\slash", "na\u00efve \u00fc", "trail "]
+        Xt = [[i % 4, (i * 3) % 5] for i in range(len(Yt))]
+        for lt, Y in (("c", Yt), ("m", [[y, Yt[(i + 3) % len(Yt)]] for i, y in enumerate(Yt)])):
+            st = {"kind": "sup_xy", "X": Xt, "Y": Y, "label_type": lt}
+            cs.append({"src": st, "chain": [{"m": "materialize"}], "hist": [full, {"op": "pickle", "on": 0}, {"op": "full", "on": 1}, {"op": "save", "on": 1}, {"op": "full", "on": 2}], "xproc": True})
+            cs.append({"src": st, "chain": [{"m": "cache"}], "hist": [full, {"op": "pickle", "on": 0}, {"op": "full", "on": 1}, full]})
+            cs.append({"src": st, "chain": [{"m": "sparse", "a": [True, True]}], "hist": [full, {"op": "save", "on": 0}, {"op": "full", "on": 1}]})
+        cs.append({"src": dict(lam, n=6, acts=[["red wine", " lead", "it's", ""]], rwds=[[1, 0, 0.5, 0.25]]), "chain": [{"m": "binary"}, {"m": "materialize"}],
+                   "hist": [full, {"op": "pickle", "on": 0}, {"op": "full", "on": 1}, {"op": "save", "on": 0}, {"op": "full", "on": 2}]})
         # a collection of different environments: every shortcut must give each member its own pipes (cache/chunk/materialize/...)
         lin2 = dict(lin, n=6, seed=5)
         for chain in ([{"m": "cache"}], [{"m": "chunk", "a": [True]}], [{"m": "materialize"}], [{"m": "shuffle", "a": [3]}, {"m": "cache"}],
